@@ -251,6 +251,43 @@ pub fn step(ex: &mut Exec, st: &mut L1State, op: &str, toks: &[&str]) -> Option<
                 }
             })
         }
+        // oracle-only: the audit blob of a real transition (local_auditing.rs): AuditBlob::new -> decode gives back the epoch, the
+        // two hashes and the identical proof; the name parses back to the same name
+        "o.pb.blob" if toks.len() == 2 => {
+            use akd::local_auditing::{AuditBlob, AuditBlobName};
+            let inst = st.inst.as_ref()?;
+            let e: u64 = toks[1].parse().ok()?;
+            if e == 0 {
+                return Some("none".into());
+            }
+            let (Some(prev), Some(cur)) = (inst.roots.get(&(e - 1)).cloned(), inst.roots.get(&e).cloned()) else { return Some("none".into()) };
+            let Some(ap) = st.rt.block_on(inst.audit(e - 1, e)) else { return Some("none".into()) };
+            let Some(single) = ap.proofs.first().cloned() else { return Some("none".into()) };
+            let r = std::panic::catch_unwind(std::panic::AssertUnwindSafe(|| {
+                let blob = AuditBlob::new(prev, cur, e - 1, &single).ok()?;
+                let name = blob.name.to_string();
+                let back = AuditBlobName::try_from(name.as_str()).ok()?;
+                let dec = blob.decode().ok()?;
+                Some((back.to_string() == name, dec))
+            }));
+            Some(match r {
+                Err(_) => {
+                    ex.fail_tag("C19", "decode-panic", format!("{:?}: building / decoding the audit blob panicked", toks));
+                    "panic".into()
+                }
+                Ok(None) => {
+                    ex.fail_tag("C19", "honest-proof-undecodable", format!("{:?}: the audit blob of a real transition cannot be built or does not decode", toks));
+                    "undecodable".into()
+                }
+                Ok(Some((name_ok, (de, dp, dc, dproof)))) => {
+                    if !name_ok || de != e - 1 || dp != prev || dc != cur || dproof != single {
+                        ex.fail_tag("C19", "roundtrip-differs", format!("{:?}: the audit blob decodes to something else than was put in (name ok: {name_ok}, epoch {de})", toks));
+                    }
+                    ex.stats.bump(op, "ok");
+                    "ok".into()
+                }
+            })
+        }
         // blob names of published audit proofs (local_auditing.rs)
         "pb.blobname" if toks.len() == 2 => {
             use akd::local_auditing::AuditBlobName;
